@@ -28,6 +28,8 @@ def _correspond(res, mode, args, tier, seed):
 
 def run(res, tier, seed):
     res.trusted_base += [
+        'translator T9 (translate/t9_levels.py): chooseNumberOfLevels regenerated as gen_choose_levels (loop conditions, statement order of cap '
+        'and minimum-level check); GridGenTie.gen_choose_levels_eq proves it equal to the model for all arguments',
         'hand-written model coq/theories/GridGenDefs.v of constructRadialDivisions / RadialAnisotropicDivision (integer window '
         'arithmetic) / refineGrid+divideVector / constructAngularDivisions / chooseNumberOfLevels',
         'K-gridgen: harness/h_gridgen.cpp runs the real PolarGrid constructor, the private chooseNumberOfLevels (guarded friend '
@@ -44,6 +46,11 @@ def run(res, tier, seed):
         'the radii of an anisotropic grid are not recomputed by the model; their validity (ends, order, midpoints, nesting) is '
         'evaluated on the implementation output in exact arithmetic by Coq-extracted predicates (increasing_b proved sound)',
     ]
+    tr = C.run_translators(['t9_levels'])
+    for n, ok, msg in tr:
+        res.obligation('translator:' + n, ok, msg[-300:])
+        if not ok:
+            res.fail('translator:' + n, msg)
     cr = C.coq_build('C18')
     res.add_coq(cr)
     ok, msg = C.build_model_driver()
